@@ -1596,6 +1596,34 @@ pub fn with_deadline<T: Send + 'static>(secs: u64, f: impl FnOnce() -> T + Send 
 // ---------------------------------------------------------------------------------------------
 // generators
 
+/// number of operations of a generated batch: usually `lo..=hi`, one time in twelve a count at which
+/// the batch header's operation-count varint needs a second byte
+pub fn gen_batch_len(rng: &mut Prng, lo: u64, hi: u64) -> u64 {
+    if rng.chance(1, 12) {
+        *rng.pick(&[127u64, 128, 129, 200])
+    } else {
+        rng.range(lo, hi)
+    }
+}
+
+/// the operations of a generated batch (many-operation batches use short values so that they stay
+/// in the write-ahead log of the larger memtable configurations)
+pub fn gen_batch_ops(rng: &mut Prng, space: u64, lo: u64, hi: u64) -> Vec<(Vec<u8>, Option<Vec<u8>>)> {
+    let n = gen_batch_len(rng, lo, hi);
+    (0..n)
+        .map(|i| {
+            let k = if n > 16 { format!("b{:03}", (i * 7) % 211).into_bytes() } else { gen_key(rng, space) };
+            if rng.chance(1, 4) {
+                (k, None)
+            } else if n > 16 {
+                (k, Some(vec![b'v'; (i % 3) as usize]))
+            } else {
+                (k, Some(gen_val(rng, false)))
+            }
+        })
+        .collect()
+}
+
 pub fn gen_key(rng: &mut Prng, space: u64) -> Vec<u8> {
     // a small key space with the interesting orderings: empty key, one byte, 0x00/0xff runs,
     // shared prefixes, adjacent keys
